@@ -114,17 +114,20 @@ func deriveImage(im *image) *image {
 			return c
 		}
 	}
-	// new bytes all over the mapped region except the structures the parsers read
-	tag := byte(1 + rng.Intn(255))
+	// new bytes all over the mapped region except the structures the parsers read: every other
+	// 0x100-byte block (at random) becomes a run of one byte value
 	lo, hi := im.RegionBeg, im.RegionEnd
 	if hi > len(im.Bytes)-0x900 {
 		hi = len(im.Bytes) - 0x900 // FIT, FIT pointer, bootblock header
 	}
-	for i := lo; i < hi; i++ {
-		if i%7 != 3 {
+	for o := lo; o+0x100 <= hi; o += 0x100 {
+		if rng.Intn(2) == 0 {
 			continue
 		}
-		c.Bytes[i] ^= tag
+		tag := byte(1 + rng.Intn(255))
+		for i := o; i < o+0x100; i++ {
+			c.Bytes[i] = tag
+		}
 	}
 	if im.IsCbfs {
 		// CBFS headers lie between lo and hi: restore them
